@@ -882,6 +882,8 @@ public:
                    " does not exist");
       }
       if (contains(x)) {
+	// rename x in the abstract value of its equivalence class
+	RenameElementInDomain{}(*(get_equiv_class(x).detach_and_get_absval()), x, y);
 	// remove the key-value entry where key==x
 	// rename key-value entries   where value==x
 	boost::optional<element_t> parent_x;
@@ -902,7 +904,6 @@ public:
 	  auto it = m_classes.find(x);
 	  if (it != m_classes.end()) {
 	    equivalence_class_t ec = it->second;
-	    RenameElementInDomain{}(*(ec.detach_and_get_absval()), x, y); 
 	    m_classes.erase(it);
 	    m_classes.insert({y, std::move(ec)});
 	  }
